@@ -19,7 +19,7 @@ meet that: the pairs here are *twins* — they differ only where a lossy digest 
 
 `focus` says which part of the program carries the difference, so that each property looks at its own
 observable: "pred" (a literal in a condition — C02/C05), "weights" (C03/C04/C10), "salt" (C12/C14/C09/C01),
-"label" (a group label — C05/C13/C15), "invalid" (C06/C11).
+"label" (a group label — C05/C13/C15), "trivia" (where a comment ends — C08), "invalid" (C06/C11).
 """
 import json
 
@@ -110,6 +110,16 @@ def pairs(rng, focus, n):
                 w1, w2 = w2, w1
             t1, t2 = _prog(labels=labels, weights=w1, head=head, tail=tail), _prog(labels=labels, weights=w2, head=head, tail=tail)
             out.append((k2, t1, t2, envs_for(["A"])))
+        elif focus == "trivia":
+            # the same characters up to white space, but a different token sequence: a line break that ends a `//` comment
+            # sits before or after the text that follows the comment marker
+            tailtext = rng.choice([', "b" weighted 1', ', "b" weighted 3, "c" weighted 1', ', "c" weighted 9'])
+            sep1, sep2 = rng.choice([(" ", "\n"), ("  ", "\n "), ("\t", "\n"), (" ", "\r\n")])
+            x = 'def tw { salt: "%s" splitters: u return "a" weighted 1 //%s%s\n}' % (a, sep1, tailtext)
+            v = 'def tw { salt: "%s" splitters: u return "a" weighted 1 //%s%s\n}' % (a, sep2, tailtext)
+            if rng.random() < 0.5:
+                x, v = v, x
+            out.append(("comment-line-break", x, v, envs_for(["A"])))
         elif focus == "invalid":
             t1 = _prog(salt=a)
             suf = rng.choice(INVALID_SUFFIX)
